@@ -3,6 +3,7 @@ package main
 // Small call-graph helpers over the module's SSA (static callees, closures by lexical parent).
 
 import (
+	"go/types"
 	"golang.org/x/tools/go/ssa"
 )
 
@@ -26,12 +27,24 @@ func (w *World) callgraph() *cgInfo {
 		}
 		c.callers[callee][caller] = true
 	}
+	implCache := map[*types.Func][]*ssa.Function{}
 	for _, fn := range w.modFns {
 		for _, b := range fn.Blocks {
 			for _, in := range b.Instrs {
 				var cc *ssa.CallCommon
 				if ci, ok := in.(ssa.CallInstruction); ok {
 					cc = ci.Common()
+					if cc.IsInvoke() {
+						// class-hierarchy edges: every module implementation of the invoked interface method may be the callee
+						impls, seen := implCache[cc.Method]
+						if !seen {
+							impls = w.implementations(cc.Method)
+							implCache[cc.Method] = impls
+						}
+						for _, m := range impls {
+							addCaller(m, fn)
+						}
+					}
 					if sc := cc.StaticCallee(); sc != nil {
 						addCaller(sc, fn)
 						if funcName(sc) == "(*sync.Once).Do" {
